@@ -218,18 +218,19 @@ def wr (data : Bytes) (idx v : Nat) : Option Bytes :=
   if idx < data.length then some (data.set idx v) else none
 
 /-- the counting pre-pass: `for (i = 0; path[i]; ++i)` — number of `/`, length, and (since the fix of
-    F10) rejection of a `~` that is not followed by `0` or `1`. Returns (len, cnt). -/
-def ptrPre (path : Bytes) (i cnt : Nat) : R (Nat × Nat) :=
+    F10, `strict = true`) rejection of a `~` that is not followed by `0` or `1`. Returns (len, cnt).
+    `strict = false` is the function as it was before the fix. -/
+def ptrPre (strict : Bool) (path : Bytes) (i cnt : Nat) : R (Nat × Nat) :=
   match h : path[i]? with
   | none => .oob
   | some c =>
     if c = 0 then .ok (i, cnt)
-    else if c = 47 then ptrPre path (i + 1) (cnt + 1)
-    else if c = 126 then
+    else if c = 47 then ptrPre strict path (i + 1) (cnt + 1)
+    else if c = 126 ∧ strict then
       match path[i + 1]? with
       | none => .oob
-      | some n => if n ≠ 48 ∧ n ≠ 49 then .err ePointer else ptrPre path (i + 1) cnt
-    else ptrPre path (i + 1) cnt
+      | some n => if n ≠ 48 ∧ n ≠ 49 then .err ePointer else ptrPre strict path (i + 1) cnt
+    else ptrPre strict path (i + 1) cnt
 termination_by path.length - i
 decreasing_by
   all_goals
@@ -284,14 +285,14 @@ deriving Repr, DecidableEq
 
 /-- `_jbl_ptr_pool(path, &jp, pool)` for a non-NULL `path`. The data area of the block has
     `sz - doff = sizeof(struct jbl_ptr) - offsetof(n) + len` bytes. -/
-def ptrParse (path : Bytes) : R PtrOk :=
+def ptrParseG (strict : Bool) (path : Bytes) : R PtrOk :=
   match path[0]? with
   | none => .oob
   | some c0 =>
     if c0 = 0 then .ok ⟨0, [], 0⟩
     else if c0 ≠ 47 then .err ePointer
     else
-      match ptrPre path 0 0 with
+      match ptrPre strict path 0 0 with
       | .oob => .oob
       | .err e => .err e
       | .ok (len, cnt) =>
@@ -307,6 +308,9 @@ def ptrParse (path : Bytes) : R PtrOk :=
           | .oob => .oob
           | .err e => .err e
           | .ok (offs, data) => .ok ⟨cnt, offs.map (cstrAt data), offs.length⟩
+
+/-- the function of the tree this model describes (F10 repaired) -/
+def ptrParse (path : Bytes) : R PtrOk := ptrParseG true path
 
 /-! ### `iwjson_ftoa` -/
 
@@ -332,42 +336,34 @@ def trimZeros (buf : Bytes) : Nat → Option (Bytes × Nat)
     | none => none
     | some c => if c = 48 then trimZeros (buf.set n 0) n else some (buf, n + 1)
 
+/-- the trimming tail of `iwjson_ftoa`: zeros from the right, then a trailing point -/
+def ftoaTrim (buf3 : Bytes) (len : Nat) : R (Bytes × Nat) :=
+  match trimZeros buf3 len with
+  | none => .oob
+  | some (buf4, len) =>
+    if len > 0 then
+      match rdBuf buf4 (len - 1) with
+      | none => .oob
+      | some c => if c = 46 then .ok (buf4.set (len - 1) 0, len - 1) else .ok (buf4, len)
+    else .ok (buf4, len)
+
 /-- `iwjson_ftoa(val, buf, &len)`; `t8` is the text `"%.8Lf"` yields for `val`, `t17` the text of
     `"%.17Lg"` (both are results of libc and inputs of the model). Returns (buf, out_len). -/
 def ftoa (t8 t17 : Bytes) : R (Bytes × Nat) :=
-  let buf0 := List.replicate numBuf 0xAA
-  let buf1 := snprintfInto buf0 t8
+  let buf1 := snprintfInto (List.replicate numBuf 0xAA) t8
   let fixed := decide (t8.length < numBuf)
   let buf2 := if fixed then buf1 else snprintfInto buf1 t17
   let len := if fixed then t8.length else t17.length
   let buf3 := commaToDot buf2
   if len = 0 ∨ len ≥ numBuf then .ok (buf3.set 0 0, 0)
   else if !fixed then .ok (buf3, len)
-  else
-    match trimZeros buf3 len with
-    | none => .oob
-    | some (buf4, len) =>
-      if len > 0 then
-        match rdBuf buf4 (len - 1) with
-        | none => .oob
-        | some c => if c = 46 then .ok (buf4.set (len - 1) 0, len - 1) else .ok (buf4, len)
-      else .ok (buf4, len)
+  else ftoaTrim buf3 len
 
 /-- the unrepaired function (tree before the fix of F6): the returned length of `snprintf` is used as
     an index without looking at the buffer size. -/
 def ftoaOld (t8 : Bytes) : R (Bytes × Nat) :=
   let buf3 := commaToDot (snprintfInto (List.replicate numBuf 0xAA) t8)
-  let len := t8.length
-  if len = 0 then .ok (buf3.set 0 0, 0)
-  else
-    match trimZeros buf3 len with
-    | none => .oob
-    | some (buf4, len) =>
-      if len > 0 then
-        match rdBuf buf4 (len - 1) with
-        | none => .oob
-        | some c => if c = 46 then .ok (buf4.set (len - 1) 0, len - 1) else .ok (buf4, len)
-      else .ok (buf4, len)
+  if t8.length = 0 then .ok (buf3.set 0 0, 0) else ftoaTrim buf3 t8.length
 
 /-! ### `iwatoi2` (length-delimited) -/
 
@@ -405,7 +401,10 @@ def atoi2 (s : Bytes) (len : Nat) : Option Int :=
     match s[i]? with
     | none => none
     | some c =>
-      let (neg, i, len) := if c = 45 then (true, i + 1, len) else if c = 43 then (false, i + 1, len) else (false, i, len + 1)
+      let neg := decide (c = 45)
+      let adv := decide (c = 45 ∨ c = 43)
+      let i := if adv then i + 1 else i
+      let len := if adv then len else len + 1
       match isInfAt s i len with
       | none => none
       | some true => some (if neg then -(2 ^ 63 - 1 : Int) else (2 ^ 63 - 1 : Int))
@@ -439,12 +438,11 @@ def afInt (s : Bytes) (len : Nat) : Option (Nat × Nat × Int × Int) :=
   match afSkip s 0 len with
   | none => none
   | some (i, len) =>
-    let neg? : Option Bool := if len > 0 then (s[i]?).map (· = 45) else some false
-    match neg? with
+    -- (alen > 0) && (*arp == '-')
+    match (if len > 0 then (s[i]?).map (fun c => decide (c = 45)) else some false) with
     | none => none
     | some neg =>
-      let (i, len) := if neg then (i + 1, len - 1) else (i, len)
-      match afDigits s i len 0 with
+      match afDigits s (if neg then i + 1 else i) (if neg then len - 1 else len) 0 with
       | none => none
       | some (i, len, num) =>
         let sign : Int := if neg then -1 else 1
@@ -504,28 +502,34 @@ def afcmp (a : Bytes) (asiz : Nat) (b : Bytes) (bsiz : Nat) : Option Int :=
 
 def tbl (c : Nat) : Nat := Gen.ascii2hex.getD c 0
 
-/-- the loop of `iwhex2bin`: `pos` read index, `out` bytes stored so far (`vpos = out.length`), `cap` the
-    size of the output buffer the caller owns. `fuel` bounds the number of iterations by `hexlen`. -/
-def hex2binLoop (hex : Bytes) (hexlen max cap : Nat) : Nat → Nat → Bytes → Option Bytes
-  | 0, _, out => some out
-  | fuel + 1, pos, out =>
-    if pos < hexlen then
-      let rd : Option (Nat × Nat × Nat) :=
-        if pos = 0 ∧ hexlen % 2 = 1 then (hex[0]?).map fun c => (48, c, 1)
-        else match hex[pos]?, hex[pos + 1]? with
-          | some a, some b => some (a, b, pos + 2)
-          | _, _ => none
-      match rd with
+/-- `out[vpos++] = (uint8_t) (ascii2hex[idx0] << 4) | ascii2hex[idx1]` into a buffer of `cap` bytes
+    (`vpos = out.length`) -/
+def hexStore (out : Bytes) (cap a b : Nat) : Option Bytes :=
+  if out.length < cap then some (out ++ [(tbl a * 16) % 256 ||| tbl b]) else none
+
+/-- the loop of `iwhex2bin`: `pos` read index, `out` bytes stored so far, `cap` the size of the output
+    buffer the caller owns, `hexlen`/`max` the two length arguments. -/
+def hex2binLoop (hex : Bytes) (hexlen max cap : Nat) (pos : Nat) (out : Bytes) : Option Bytes :=
+  if pos < hexlen then
+    if pos = 0 ∧ hexlen % 2 = 1 then          -- first iteration + odd number of digits: '0' prefix
+      match hex[0]? with
       | none => none
-      | some (a, b, pos') =>
-        if out.length < cap then
-          let out := out ++ [(tbl a * 16) % 256 ||| tbl b]
-          if out.length ≥ max then some out else hex2binLoop hex hexlen max cap fuel pos' out
-        else none
-    else some out
+      | some c =>
+        match hexStore out cap 48 c with
+        | none => none
+        | some out => if out.length ≥ max then some out else hex2binLoop hex hexlen max cap (pos + 1) out
+    else
+      match hex[pos]?, hex[pos + 1]? with
+      | some a, some b =>
+        match hexStore out cap a b with
+        | none => none
+        | some out => if out.length ≥ max then some out else hex2binLoop hex hexlen max cap (pos + 2) out
+      | _, _ => none
+  else some out
+termination_by hexlen - pos
 
 /-- `iwhex2bin(hex, hexlen, out, max)` with `hex` of `hex.length` bytes and `out` of `cap` bytes -/
 def hex2bin (hex : Bytes) (hexlen max cap : Nat) : Option Bytes :=
-  if max < 1 then some [] else hex2binLoop hex hexlen max cap (hexlen + 1) 0 []
+  if max < 1 then some [] else hex2binLoop hex hexlen max cap 0 []
 
 end IwModel.Txt
